@@ -8,8 +8,8 @@ FN = ['script/interpreter.cpp: StepScript (OP_CHECKSIG, OP_CHECKSIGVERIFY, OP_CH
       'script/interpreter.cpp: EvalChecksigTapscript', 'script/interpreter.cpp: CheckSignatureEncoding', 'script/interpreter.cpp: CheckPubKeyEncoding', 'script/interpreter.cpp: IsValidSignatureEncoding', 'script/interpreter.cpp: IsLowDERSignature',
       'script/interpreter.cpp: IsDefinedHashtypeSignature', 'script/interpreter.cpp: IsCompressedPubKey / IsCompressedOrUncompressedPubKey']
 def mk(name, opsel, n, w, k, extra, tier='quick', timeout=3000, backend=None):
-    defs = ['H_SIG', f'H_OPSEL(op)=({opsel})', f'H_N={n}', f'VERIF_STACK_W={max(w, 1)}', f'VERIF_ITEM_CAP={k}', 'VERIF_SCRIPT_CAP=24', 'H_AN=0'] + extra
-    return Query(name, 'harness', unit_step_sig, 'h_step', defines=defs, unwind=max(k + 2, 34), timeout=timeout, object_bits=12, tier=tier, backend=backend,
+    defs = ['H_SIG', f'H_OPSEL(op)=({opsel})', f'H_N={n}', f'VERIF_STACK_W={max(w, 1)}', f'VERIF_ITEM_CAP={k}', 'VERIF_SCRIPT_CAP=' + ('12' if 'VERIF_ORACLE_N=12' in extra else '24'), 'H_AN=0'] + extra
+    return Query(name, 'harness', unit_step_sig, 'h_step', defines=defs, unwind=(14 if 'VERIF_ORACLE_N=12' in extra else max(k + 2, 26)), timeout=timeout, object_bits=12, tier=tier, backend=backend,
                  bounded=f'stack element storage {k} bytes (signatures <= 73, keys <= 65 bytes fit when >= 80)', functions=FN)
 def sig_queries():
     qs = []
@@ -25,23 +25,28 @@ def sig_queries():
     for j in range(3):
         qs.append(mk(f'sig_checksigadd_depth{j}', 'op==0xba', j, max(j, 1), 16, ['H_EXEC=1', 'H_BASE0', 'H_NO_OK', 'H_CANARY_ERR', 'H_SV=3']))
     # CHECKMULTISIG(VERIFY): case split over the number of keys / signatures (window = nk + ns + 3 items)
-    for (nk, ns, tier) in ((0, 0, 'quick'), (1, 0, 'quick'), (1, 1, 'quick'), (2, 1, 'quick'), (2, 2, 'quick'), (3, 2, 'thorough'), (3, 1, 'thorough'), (3, 3, 'thorough')):
+    for (nk, ns, tier) in ((0, 0, 'quick'), (1, 0, 'quick'), (1, 1, 'quick'), (2, 1, 'thorough'), (2, 2, 'thorough'), (3, 2, 'thorough'), (3, 1, 'thorough'), (3, 3, 'thorough')):
         n = nk + ns + 3
         for op, nm in ((0xae, 'multisig'), (0xaf, 'multisigverify')):
-            if nm == 'multisigverify' and (nk, ns) not in ((1, 1), (2, 1)): continue
-            q = mk(f'sig_{nm}_{nk}of{ns}', f'op=={op:#x}', n, n, 16, ['H_EXEC=1', 'H_CANARY_ERR', f'H_MS_KEYS={nk}', f'H_MS_SIGS={ns}', 'H_SV_PRE'], tier)
-            q.bounded = f'OP_CHECKMULTISIG with exactly {nk} keys and {ns} signatures (consensus maximum 20); element storage 16 bytes (DER signatures of 9..16 bytes)'
+            if nm == 'multisigverify' and (nk, ns) not in ((1, 0), (2, 1)): continue
+            q = mk(f'sig_{nm}_{nk}of{ns}', f'op=={op:#x}', n, n, 10, ['VERIF_ORACLE_N=12', 'H_EXEC=1', 'H_BASE0', 'H_CANARY_ERR', f'H_MS_KEYS={nk}', f'H_MS_SIGS={ns}', 'H_SV_PRE'], tier)
+            q.backend = 'kissat'; q.timeout = 6000
+            q.bounded = f'OP_CHECKMULTISIG with exactly {nk} keys and {ns} signatures (consensus maximum 20) on a stack holding exactly its arguments (a symbolic number of hidden items makes the decoded counts symbolic and the loops unbounded); element storage 10 bytes (DER signatures of 9..10 bytes)'
             qs.append(q)
     # count limits and stack shortage of multisig: symbolic key count, nothing else needed
     qs.append(mk('sig_multisig_counts', 'op==0xae', 1, 1, 16, ['H_EXEC=1', 'H_BASE0', 'H_NO_OK', 'H_CANARY_ERR', 'H_CANARY_EXC', 'H_SV_PRE']))
-    qs.append(mk('sig_multisig_tapscript', 'op==0xae||op==0xaf', 1, 1, 16, ['H_EXEC=1', 'H_NO_OK', 'H_CANARY_ERR', 'H_SV=3']))
+    qs.append(mk('sig_multisig_tapscript', 'op==0xae||op==0xaf', 1, 1, 16, ['H_EXEC=1', 'H_BASE0', 'H_NO_OK', 'H_CANARY_ERR', 'H_SV=3']))
     return qs
-QUERIES = sig_queries()
+from props import units_leaf as ULF
+def fad(n, tier):
+    return Query(f'leaf_findanddelete_n{n}', 'harness', ULF.unit_decode, 'h_findanddelete', defines=['VERIF_ITEM_CAP=16', f'VERIF_SCRIPT_CAP={n}', f'H_SCRIPT_N={n}'], unwind=n + 4, timeout=3000, object_bits=10, tier=tier, backend='kissat',
+                 functions=['script/interpreter.cpp: FindAndDelete'], bounded=f'all scripts of at most {n} bytes and patterns of at most 3 bytes (loop over operations: no invariant proof)')
+QUERIES = sig_queries() + [fad(5, 'quick'), fad(7, 'thorough')]
 META = {'level': 'proof', 'trusted_base': TRUSTED + ['stubs/step_env_sig.h: ECDSA / Schnorr verification, low-S test and FindAndDelete as oracles'],
  'assumptions': ASSUME_COMMON + [
    "claimed: the script-level half - which signature/key pairs are submitted for verification, in which order, under which encoding rules and flags, what is charged, and what is pushed for each oracle verdict",
    "not applicable: that the digest handed to verification is the legacy / BIP143 / BIP341 message (SignatureHash*, CTransactionSignatureSerializer use the ::Serialize / HashWriter template framework, Span and std::optional - outside the C++ front end) and that secp256k1 decides ECDSA / BIP340 validity (elliptic-curve arithmetic): these are the oracles",
-   "FindAndDelete's effect on the scriptCode passed to the ECDSA oracle is not observable in this model (only the count it returns, which drives CONST_SCRIPTCODE)",
+   "inside the opcode queries FindAndDelete is an oracle (its count drives CONST_SCRIPTCODE; its effect on the scriptCode passed to the ECDSA oracle is not observable there); the real FindAndDelete is proved separately against its definition for all scripts of <= 5 (7) bytes",
    "--pretend-valid tables: one listed pair",
  ],
  'explanation': 'per-opcode contract of the real signature-opcode code (StepScript cases + EvalChecksig* + encoding predicates, all sliced verbatim) against harness/spec_sig.h with cryptographic verdicts as oracles'}
